@@ -109,6 +109,10 @@ func genJunkCfg(t *rapid.T) Cfg {
 
 func c17Gen(t *rapid.T) C17Case {
 	c := C17Case{Junk: genJunkCfg(t), Valid: genValidCfg(t), Debug: chance(t, "debug", 50)}
+	if chance(t, "wide", 5) {
+		// many patterns around one base host (wide and deep lookup structures)
+		c.Valid = Cfg{Origins: patStrings(genWidePatList(t)), TolInsecure: true, TolPSL: true, Methods: c.Valid.Methods, RequestHeaders: c.Valid.RequestHeaders}
+	}
 	p := poolsOf(c.Valid)
 	for i, n := 0, intIn(t, "nreqs", 2, 10); i < n; i++ {
 		r := genReq(t, p)
@@ -116,6 +120,17 @@ func c17Gen(t *rapid.T) C17Case {
 			r = r.With(hOrigin, genHostileOrigin(t))
 		}
 		c.Reqs = append(c.Reqs, r)
+	}
+	if chance(t, "hostilebytes", 30) {
+		// bytes no host may contain, right where the listed hosts branch out
+		for i := 0; i < 4; i++ {
+			o := hostileByteOrigin(t, pick(t, "hostilebase", p.allowed))
+			if chance(t, "hostilepreflight", 50) {
+				c.Reqs = append(c.Reqs, Preflight(o, "PUT"))
+			} else {
+				c.Reqs = append(c.Reqs, Actual("GET", o))
+			}
+		}
 	}
 	return c
 }
